@@ -424,7 +424,7 @@ class Run:
         ad = self.ad
         if name == "Solve":
             toks = op[1]
-            ad.solve(s, self.nsolve)
+            ad.solve(s, self.nsolve % 7)
             self.nsolve += 1
             for t, a in zip(toks, ad.live(s)):
                 self.reg[str(t)] = sha(a)
@@ -444,8 +444,11 @@ class Run:
             i = op[1]
             before = self.obs()
             try:
-                r = s.Get_results(i)
+                # python-style negative indices address the same entries
+                r = s.Get_results(i - s.Niter if (0 <= i < s.Niter and (i + n) % 3 == 0) else i)
             except AssertionError:
+                if 0 <= i < s.Niter:
+                    raise   # a valid index must not be rejected
                 self.events.append([n, "GetResults-invalid"])
                 return
             after = self.obs()
@@ -456,12 +459,14 @@ class Run:
             if i < len(self.ghost):
                 g = self.ghost[i]
                 if [int(r["indexMesh"])] + [sha(x) for x in self.handed] != [g[0]] + [sha(x) for x in g[2]]:
-                    self.fail("get-results-value", n, {"iter": i})
+                    self.fail("get-results-value", n, {"iter": i, "entry_corrupted_by": self.corrupt.get(i)})
         elif name == "SetIter":
             i = op[1]
             try:
-                r = s.Set_Iter(i)
+                r = s.Set_Iter(i - s.Niter if (0 <= i < s.Niter and (i + n) % 3 == 0) else i)
             except AssertionError:
+                if 0 <= i < s.Niter:
+                    raise   # a valid index must not be rejected
                 self.events.append([n, "SetIter-invalid"])
                 return
             self.handed = ad.entry_fields(r)
@@ -470,11 +475,15 @@ class Run:
         elif name == "ResultQ":
             i, k = op[1], op[2]
             rname = ad.results[k]
-            if rname is None:
-                return
             try:
-                v = s.Result(rname, iter=i)
+                if rname is None:
+                    s.Set_Iter(i)
+                    v = deep(ad.live(s)[k])
+                else:
+                    v = s.Result(rname, iter=i)
             except AssertionError:
+                if 0 <= i < s.Niter:
+                    raise   # a valid index must not be rejected
                 self.events.append([n, "ResultQ-invalid"])
                 return
             r = s.Get_results(i)
@@ -483,13 +492,13 @@ class Run:
             self.handed_src = "Result"
             self.check_restored(i, n, "Result")
             g = self.ghost[i]
-            if sha(v) != sha(g[3][k]):
-                self.fail("result-value", n, {"iter": i, "result": rname})
+            if rname is not None and sha(v) != sha(g[3][k]):
+                self.fail("result-value", n, {"iter": i, "result": rname, "entry_corrupted_by": self.corrupt.get(i)})
         elif name == "WriteRet":
             k, tok = op[1], op[2]
             if k < len(self.handed):
                 c = 1000.0 + tok
-                self.reg[str(tok) + "@" + str(k)] = sha(filled_like(self.handed[k], c))
+                self.reg[str(tok)] = sha(filled_like(self.handed[k], c))
                 livebefore = [sha(x) for x in ad.live(s)]
                 fill(self.handed[k], c)
                 self.wrote.append(self.handed_src)
@@ -533,7 +542,8 @@ class Run:
                     self.step(n, op)
             except Exception as ex:  # the implementation raised on a valid op list
                 import traceback
-                err = {"step": n, "op": op, "error": type(ex).__name__ + ": " + str(ex)[:300], "tb": traceback.format_exc()[-1500:]}
+                err = {"step": n, "op": op, "error": type(ex).__name__ + ": " + str(ex)[:300], "tb": traceback.format_exc()[-1500:],
+                       "abandoned": op[0] == "Solve" and any(e[1] == "write-reached-live" for e in self.events)}
                 break
         out = {"id": self.case["id"], "sim": self.case["sim"], "fails": self.fails, "events": self.events, "error": err,
                "reg": self.reg, "nfields": len(self.ad.keys)}
@@ -680,7 +690,7 @@ def probe_save_then_folder_change(root):
         err = None
     except Exception as ex:
         ok, err = False, type(ex).__name__ + ": " + str(ex)[:200]
-    return {"mesh_restored": ok, "error": err, "violates": not ok}
+    return {"mesh_restored": ok, "exc": err, "violates": not ok}
 
 
 def probe_phasefield_save(root):
